@@ -805,25 +805,31 @@ class ODLEncoder(PVLEncoder):
                 f"have a timezone offset: {value}"
             )
 
-        t = super().encode_time(value)
+        t = self.encode_time_fields(value)
 
-        if value.utcoffset() == datetime.timedelta():
+        offset = value.utcoffset()
+        if offset == datetime.timedelta():
             return t + "Z"
-        else:
-            td_str = str(value.utcoffset())
-            (h, m, s) = td_str.split(":")
-            if s != "00":
-                raise ValueError(
-                    "The datetime value had a timezone offset "
-                    f"with seconds values ({value}) which is "
-                    "not allowed in ODL."
-                )
-            if m == "00":
-                return t + f"+{h:0>2}"
-            else:
-                return t + f"+{h:0>2}:{m}"
 
-        return t
+        # ODL: zone_offset ::= sign hour [: minute], hours -12 to +12
+        total = offset.days * 86400 + offset.seconds
+        if offset.microseconds or total % 60:
+            raise ValueError(
+                "The datetime value had a timezone offset "
+                f"with seconds values ({value}) which is "
+                "not allowed in ODL."
+            )
+        sign = "+" if total >= 0 else "-"
+        (h, m) = divmod(abs(total) // 60, 60)
+        if h > 12:
+            raise ValueError(
+                "ODL only allows timezone offsets from -12 to +12 hours, "
+                f"and this value is outside that range: {value}"
+            )
+        if m == 0:
+            return t + f"{sign}{h:02d}"
+        else:
+            return t + f"{sign}{h:02d}:{m:02d}"
 
     def encode_units(self, value) -> str:
         """Overrides parent function since ODL limits what characters
